@@ -43,6 +43,9 @@ pub enum Case {
         offset: f64,
         #[serde(default)]
         spread_exp: f64,
+        /// ordinates (slope, intercept and noise) times 10^yscale_exp: the fit is linear in the ordinates
+        #[serde(default)]
+        yscale_exp: f64,
     },
     Curve {
         /// 0 polynomial basis, 1 trigonometric basis (linear in parameters); 2 a e^{bx}+c, 3 gaussian, 4 logistic
@@ -63,6 +66,10 @@ pub enum Case {
         fd: bool,
         /// 0 valid, 1 negative tolerance, 2 negative h (fd only), 3 negative damping, 4 mismatched lengths
         invalid: u8,
+        /// models linear in their parameters: truth and start times 10^pscale_exp (large ordinates, sums of squares far
+        /// above 1 under an absolute tolerance)
+        #[serde(default)]
+        pscale_exp: f64,
     },
 }
 
@@ -540,7 +547,12 @@ pub fn run_case(case: &Case) -> Outcome {
     }
     match case {
         Case::CurveComplex { .. } | Case::LinearComplex { .. } => unreachable!(),
-        Case::Linear { xs, slope, icpt, noise, noise_amp, perm_seed, mismatch, offset, spread_exp } => {
+        Case::Linear { xs, slope, icpt, noise, noise_amp, perm_seed, mismatch, offset, spread_exp, yscale_exp } => {
+            let yf = 10f64.powf(*yscale_exp);
+            let (slope, icpt, noise_amp) = (&(slope * yf), &(icpt * yf), &(noise_amp * yf));
+            if *yscale_exp != 0.0 {
+                o.label("scaled-ordinates");
+            }
             o.label("linear_fit");
             let spread = 10f64.powf(*spread_exp);
             let xs: &Vec<f64> = &xs.iter().map(|x| offset + spread * x).collect();
@@ -630,7 +642,7 @@ pub fn run_case(case: &Case) -> Outcome {
             o.nontrivial = *noise_amp != 0.0 || n >= 10;
             o.pass()
         }
-        Case::Curve { model, nparam, xs, truth, start, noise, noise_amp, tol, damping, mult, h, fd, invalid } => {
+        Case::Curve { model, nparam, xs, truth, start, noise, noise_amp, tol, damping, mult, h, fd, invalid, pscale_exp } => {
             let model = *model % 5;
             let linear = model <= 1;
             let v = if linear { (*nparam).clamp(1, 4) } else { 3 };
@@ -639,13 +651,13 @@ pub fn run_case(case: &Case) -> Outcome {
             o.label(if *fd { "curve_fit" } else { "curve_fit_jac" });
             // truth parameters
             let pt: Vec<f64> = match model {
-                0 | 1 => truth[..v].to_vec(),
+                0 | 1 => truth[..v].iter().map(|t| t * 10f64.powf(*pscale_exp)).collect(),
                 2 => vec![0.5 + truth[0].abs(), 0.4 * truth[1], truth[2]],
                 3 => vec![1.0 + truth[0].abs(), 0.5 * truth[1], 0.6 + 0.3 * truth[2].abs()],
                 _ => vec![1.0 + truth[0].abs(), 1.0 + truth[1].abs(), 0.5 * truth[2]],
             };
             let ys: Vec<f64> = (0..n).map(|i| model_eval(model, xs[i], &pt) + noise_amp * noise[i % noise.len()]).collect();
-            let st: Vec<f64> = if linear { start[..v].to_vec() } else { (0..v).map(|k| pt[k] * (1.0 + 0.2 * start[k] / 2.0)).collect() };
+            let st: Vec<f64> = if linear { start[..v].iter().map(|t| t * 10f64.powf(*pscale_exp)).collect() } else { (0..v).map(|k| pt[k] * (1.0 + 0.2 * start[k] / 2.0)).collect() };
             // damping below 1e-4 (practically Gauss-Newton) only for the models linear in their parameters
             let damping = &(if linear { *damping } else { damping.max(1e-4) });
             if *damping < 1e-4 {
@@ -653,6 +665,15 @@ pub fn run_case(case: &Case) -> Outcome {
             }
             if *damping * (1.0 - 1.0 / *mult) == 1.0 {
                 o.label("damping-multiplier-resonance");
+            }
+            if linear && *pscale_exp != 0.0 {
+                o.label("large-ordinates");
+                // the loop compares sums of squares to an absolute tolerance: below the resolution of the sum at the start
+                // (2 tol < 8 ulp) the tolerance cannot be honoured in double precision - outside the quantified domain
+                let s0: f64 = (0..n).map(|i| (ys[i] - model_eval(model, xs[i], &st)).powi(2)).sum();
+                if *invalid == 0 && 2.0 * *tol <= 8.0 * EPS * s0 {
+                    return o.discard("tolerance below the resolution of the initial sum of squares");
+                }
             }
             let mut prm = CurveFitParams::<f64> { damping: *damping, tolerance: *tol, h: *h, damping_mult: *mult };
             let calls = Cell::new(0usize);
@@ -846,11 +867,12 @@ fn xs_strategy(lo: usize, hi: usize) -> BoxedStrategy<Vec<f64>> {
 fn strategy(_t: Tier) -> BoxedStrategy<Case> {
     // a seventh of the designs: abscissae about the origin scaled by 10^[-9,6] (micro-units, large units), the slope scaled
     // inversely so that the data are those of the unscaled problem
-    let place = prop_oneof![3 => Just((0.0, 0.0)), 2 => (prop_oneof![Just(10.0), Just(-50.0), Just(2010.0), gen::fl(-3000.0, 3000.0)], gen::fl(-1.5, 1.0)), 1 => (Just(0.0), gen::fl(-9.0, 6.0))];
+    let place = (prop_oneof![3 => Just((0.0, 0.0)), 2 => (prop_oneof![Just(10.0), Just(-50.0), Just(2010.0), gen::fl(-3000.0, 3000.0)], gen::fl(-1.5, 1.0)), 1 => (Just(0.0), gen::fl(-9.0, 6.0))], prop_oneof![4 => Just(0.0), 1 => gen::fl(-16.0, 6.0)])
+        .prop_map(|((o, s), y)| (o, s, y));
     let linear = (xs_strategy(3, 60), gen::fl(-3.0, 3.0), gen::fl(-3.0, 3.0), proptest::collection::vec(gen::fl(-1.0, 1.0), 60), prop_oneof![1 => Just(0.0), 1 => gen::logu(-4.0, -1.0)], any::<u64>(), prop_oneof![15 => Just(false), 1 => Just(true)], place)
-        .prop_map(|(xs, slope, icpt, noise, noise_amp, perm_seed, mismatch, (offset, spread_exp))| Case::Linear { xs, slope, icpt, noise, noise_amp, perm_seed, mismatch, offset, spread_exp });
+        .prop_map(|(xs, slope, icpt, noise, noise_amp, perm_seed, mismatch, (offset, spread_exp, yscale_exp))| Case::Linear { xs, slope, icpt, noise, noise_amp, perm_seed, mismatch, offset, spread_exp, yscale_exp });
     let curve = (
-        (0u8..5, 1usize..=4, xs_strategy(6, 60)),
+        (0u8..5, 1usize..=4, xs_strategy(6, 60), prop_oneof![3 => Just(0.0), 1 => gen::fl(0.3, 1.5)]),
         (proptest::collection::vec(gen::fl(-2.0, 2.0), 4), proptest::collection::vec(gen::fl(-2.0, 2.0), 4), proptest::collection::vec(gen::fl(-1.0, 1.0), 60), prop_oneof![1 => Just(0.0), 1 => gen::logu(-4.0, -2.0)]),
         (
             gen::logu(-12.0, -6.0),
@@ -864,7 +886,8 @@ fn strategy(_t: Tier) -> BoxedStrategy<Case> {
             prop_oneof![12 => Just(0u8), 1 => 1u8..=4],
         ),
     )
-        .prop_map(|((model, nparam, xs), (truth, start, noise, noise_amp), (tol, (damping, mult), h, fd, invalid))| Case::Curve { model, nparam, xs, truth, start, noise, noise_amp, tol, damping, mult, h, fd, invalid });
+        .prop_map(|((model, nparam, xs, pscale_exp), (truth, start, noise, noise_amp), (tol, (damping, mult), h, fd, invalid))| Case::Curve {
+            pscale_exp: if model % 5 <= 1 { pscale_exp } else { 0.0 }, model, nparam, xs, truth, start, noise, noise_amp, tol, damping, mult, h, fd, invalid });
     let zc = || (gen::fl(-2.0, 2.0), gen::fl(-2.0, 2.0));
     let ccurve = (
         (0u8..2, 1usize..=4, xs_strategy(6, 40)),
@@ -879,10 +902,10 @@ fn strategy(_t: Tier) -> BoxedStrategy<Case> {
 
 pub fn run(opts: &Opts) -> i32 {
     let mut spec = Spec::new("C17", strategy, run_case);
-    spec.cases = opts.tier.pick(6_000, 150_000);
+    spec.cases = opts.tier.pick(30_000, 300_000);
     spec.essential = vec![("linear_fit", 0.1), ("curve_fit_jac", 0.2), ("curve_fit", 0.2), ("noisy", 0.2), ("invalid", 0.03), ("gaussian", 0.05), ("logistic", 0.05), ("exponential", 0.05), ("noisy-replicated-abscissae", 0.05), ("curve_fit_jac-complex-data", 0.04)];
     spec.max_discard_frac = 0.2;
-    spec.rule = "generated: linear_fit on 3-60 stratified abscissae in [-2,2] (a third of all designs snapped to a grid of width 0.25/0.5/1, i.e. with replicated abscissae), exactly linear or noisy (10^[-4,-1]), permuted order, mismatched lengths, two fifths of the designs moved to offset + 10^[-1.5,1] x (offsets 10, -50, 2010 or U(-3000,3000): data far from the origin relative to their spread; allowances scale with kappa = sum x^2 / sum (x-mean)^2), a seventh scaled about the origin by 10^[-9,6] with the slope scaled inversely (micro-units, large units); curve_fit_jac / curve_fit on 6-60 abscissae with models linear in 1-4 parameters (polynomial and trigonometric bases, arbitrary starts in [-2,2]) and non-linear models a e^{bx}+c, gaussian, logistic (starts within 20% of the truth), noise 0 or 10^[-4,-2], tolerance 10^[-12,-6], damping 10^[-2,1] (two ninths of the cases 10^[-4,-2], one ninth 10^[-10,-4] for the models linear in their parameters: practically Gauss-Newton), multiplier [1.1,5] (one case in ten: typed values - damping 2, 1, 3, 1.5, 5, 4, 10, 0.5, 0.1, 0.01 with multiplier 2, 1.5, 3, 1.25, 4, 5, 10, 4/3, 1.1, including the default pair (2,2) and the other pairs with damping (1 - 1/mult) = 1), h 10^[-4,-1]; designs with lambda_min(J^T J) < 1e-3, non-linear designs whose stopping-rule bound exceeds a tenth of the parameter scale, and non-linear designs whose least-squares solution lies further than a tenth of the parameter scale from the generating parameters, are discarded (counted); invalid: negative tolerance / h / damping, mismatched lengths; one case in thirteen is curve_fit_jac on complex data (model linear in 1-4 complex parameters, complex noise; a third of them noise-free with a start that differs from the truth by a common complex phase 1+i, 1-i or i times a real vector) against the complex normal equations; linear_fit on exactly linear complex data over complex abscissae (reproduction). Oracle: normal equations, exact-linear reproduction, permutation invariance; model-call budget (termination); distance to the reference least-squares solution (harness Gauss-Newton with analytic Jacobian) <= 10 sqrt(tol/lambda_min) sqrt(1 + d/(2 mu_min)) + 1e-9 (d = final damping from the transliterated loop, mu_min = smallest eigenvalue of the diagonally scaled Gauss-Newton matrix) (+ 40 h^2 |r| term for finite differences); a failing curve_fit outcome that coincides with the harness's bug-compatible transliteration of the Levenberg-Marquardt loop (Jacobian = sum) is the recorded finding K1; a failing curve_fit_jac outcome on a non-linear model that coincides with the transliterated loop, in which that loop accepted a step raising the sum of squares, and which a safeguarded Levenberg-Marquardt iteration from the same start and damping solves, is the recorded finding K3; one that coincides with the transliterated loop, in which that loop exited after its first main iteration with damping (1 - 1/mult) within 0.1 of 1, is the recorded finding K5. Non-trivial = non-linear model, noisy data or >= 3 parameters (linear_fit: noisy or >= 10 points). Distinct = distinct case JSON.".into();
+    spec.rule = "generated: linear_fit on 3-60 stratified abscissae in [-2,2] (a third of all designs snapped to a grid of width 0.25/0.5/1, i.e. with replicated abscissae), exactly linear or noisy (10^[-4,-1]), permuted order, mismatched lengths, two fifths of the designs moved to offset + 10^[-1.5,1] x (offsets 10, -50, 2010 or U(-3000,3000): data far from the origin relative to their spread; allowances scale with kappa = sum x^2 / sum (x-mean)^2), a seventh scaled about the origin by 10^[-9,6] with the slope scaled inversely (micro-units, large units), a fifth with all ordinates times 10^[-16,6]; curve_fit_jac / curve_fit on 6-60 abscissae with models linear in 1-4 parameters (polynomial and trigonometric bases, arbitrary starts in [-2,2]; a quarter of them with truth and start times 10^[0.3,1.5]: sums of squares far above 1 under the absolute tolerance, discarded when 2 tol is below 8 ulp of the initial sum) and non-linear models a e^{bx}+c, gaussian, logistic (starts within 20% of the truth), noise 0 or 10^[-4,-2], tolerance 10^[-12,-6], damping 10^[-2,1] (two ninths of the cases 10^[-4,-2], one ninth 10^[-10,-4] for the models linear in their parameters: practically Gauss-Newton), multiplier [1.1,5] (one case in ten: typed values - damping 2, 1, 3, 1.5, 5, 4, 10, 0.5, 0.1, 0.01 with multiplier 2, 1.5, 3, 1.25, 4, 5, 10, 4/3, 1.1, including the default pair (2,2) and the other pairs with damping (1 - 1/mult) = 1), h 10^[-4,-1]; designs with lambda_min(J^T J) < 1e-3, non-linear designs whose stopping-rule bound exceeds a tenth of the parameter scale, and non-linear designs whose least-squares solution lies further than a tenth of the parameter scale from the generating parameters, are discarded (counted); invalid: negative tolerance / h / damping, mismatched lengths; one case in thirteen is curve_fit_jac on complex data (model linear in 1-4 complex parameters, complex noise; a third of them noise-free with a start that differs from the truth by a common complex phase 1+i, 1-i or i times a real vector) against the complex normal equations; linear_fit on exactly linear complex data over complex abscissae (reproduction). Oracle: normal equations, exact-linear reproduction, permutation invariance; model-call budget (termination); distance to the reference least-squares solution (harness Gauss-Newton with analytic Jacobian) <= 10 sqrt(tol/lambda_min) sqrt(1 + d/(2 mu_min)) + 1e-9 (d = final damping from the transliterated loop, mu_min = smallest eigenvalue of the diagonally scaled Gauss-Newton matrix) (+ 40 h^2 |r| term for finite differences); a failing curve_fit outcome that coincides with the harness's bug-compatible transliteration of the Levenberg-Marquardt loop (Jacobian = sum) is the recorded finding K1; a failing curve_fit_jac outcome on a non-linear model that coincides with the transliterated loop, in which that loop accepted a step raising the sum of squares, and which a safeguarded Levenberg-Marquardt iteration from the same start and damping solves, is the recorded finding K3; one that coincides with the transliterated loop, in which that loop exited after its first main iteration with damping (1 - 1/mult) within 0.1 of 1, is the recorded finding K5. Non-trivial = non-linear model, noisy data or >= 3 parameters (linear_fit: noisy or >= 10 points). Distinct = distinct case JSON.".into();
     spec.assumptions = vec!["reference least-squares solution by Gauss-Newton from the generating parameters".into(), "bug-compatible LM transliteration tracks the implementation bit-for-bit (same nalgebra calls)".into()];
     spec.max_shrink_iters = 400;
     run_spec(spec, opts)
